@@ -58,16 +58,16 @@ func init() {
 				return func() {
 					cp, err := lc.cl.Client()
 					if err != nil {
-						x.Fail("S", "%s: Client(): %v", name, err)
+						failT(x, "%s: Client(): %v", name, err)
 						return
 					}
 					o, err := cp.Dispense("p")
 					if err != nil {
-						x.Fail("S", "%s: Dispense: %v", name, err)
+						failT(x, "%s: Dispense: %v", name, err)
 						return
 					}
 					if err := lc.call(o, false); err != nil {
-						x.Fail("S", "%s: call: %v", name, err)
+						failT(x, "%s: call: %v", name, err)
 					}
 				}
 			}
@@ -86,6 +86,9 @@ func init() {
 						if hist == "p2h" {
 							acc, dial, adom, ddom = lc.rp.cb, lc.rp.sb, "host", lc.r.dom.Name
 						}
+						if acc == nil || dial == nil {
+							return // the dispense above failed (reported there)
+						}
 						got := make(chan struct{}, 2)
 						x.Go(adom, func() {
 							defer func() { got <- struct{}{} }()
@@ -101,7 +104,7 @@ func init() {
 								c.Write([]byte{1})
 								c.Close()
 							} else {
-								x.Fail("S", "brokered Dial: %v", err)
+								failT(x, "brokered Dial: %v", err)
 							}
 						})
 						<-got
@@ -112,6 +115,9 @@ func init() {
 					adom, ddom := lc.r.dom.Name, "host"
 					if hist == "p2h" {
 						acc, dial, adom, ddom = lc.gp.cb, lc.gp.sb, "host", lc.r.dom.Name
+					}
+					if acc == nil || dial == nil {
+						return
 					}
 					x.Go(adom, func() { // serves until the broker / process goes away
 						acc.AcceptAndServe(41, func(o []grpc.ServerOption) *grpc.Server {
@@ -125,13 +131,13 @@ func init() {
 						defer func() { got <- struct{}{} }()
 						cc, err := dial.Dial(41)
 						if err != nil {
-							x.Fail("S", "brokered Dial: %v", err)
+							failT(x, "brokered Dial: %v", err)
 							return
 						}
 						x.OnCleanup(func() { cc.Close() })
 						ctx, cancel := context.WithTimeout(context.Background(), 8*time.Second)
 						if tag, err := pingTag(ctx, cc); err != nil || tag != "41" {
-							x.Fail("S", "brokered ping: %q %v", tag, err)
+							failT(x, "brokered ping: %q %v", tag, err)
 						}
 						cancel()
 						cc.Close()
@@ -168,7 +174,7 @@ func init() {
 			if os.Getenv("VERIF_DEBUG") != "" {
 				x.Fail("DEBUG", "forced=%v goroutines=%q", forced, x.Goroutines(""))
 			}
-			if forced || len(x.Violations()) > 0 {
+			if forced || len(x.Violations()) > 0 || x.Data["session-disturbed"] == true {
 				return // the property speaks about graceful exits of working sessions
 			}
 			for _, pkg := range []string{"hashicorp/go-plugin.", "google.golang.org/grpc", "hashicorp/yamux"} {
@@ -227,4 +233,14 @@ func shortAddr(l string) string {
 		return dom + " unix|" + short(filepath.Base(filepath.Dir(a[i+1:]))) + "/" + short(filepath.Base(a[i+1:]))
 	}
 	return l
+}
+
+// failT records a "the working session did not work" verdict, which like every latency / success verdict is
+// only meaningful when no timer was made to fire early (TIME deviation).
+func failT(x *vs.Exec, f string, a ...any) {
+	if x.TimeDevs == 0 {
+		x.Fail("T", f, a...)
+	} else {
+		x.Data["session-disturbed"] = true
+	}
 }
